@@ -2,7 +2,7 @@
 (* C15 vector generation: every history of the operation alphabet of History.tla up to length 3,
    written as JSON for the driver (longer histories are built by the front end from these). *)
 EXTENDS Naturals, Sequences, TLC, Json, IOUtils, SequencesExt, FiniteSetsExt
-Ops == 0..35
+Ops == 0..36
 H1 == { <<a>> : a \in Ops }
 H2 == { <<a, b>> : a \in Ops, b \in Ops }
 H3 == { <<a, b, c>> : a \in Ops, b \in Ops, c \in Ops }
